@@ -51,8 +51,11 @@ def hImpUser : Str := [73, 109, 112, 101, 114, 115, 111, 110, 97, 116, 101, 45, 
 def hImpGroup : Str := [73, 109, 112, 101, 114, 115, 111, 110, 97, 116, 101, 45, 71, 114, 111, 117, 112]
 /-- "Impersonate-Extra-" -/
 def hImpExtraPrefix : Str := [73, 109, 112, 101, 114, 115, 111, 110, 97, 116, 101, 45, 69, 120, 116, 114, 97, 45]
-/-- `impersonateHeaderPrefix` of dynamic_impersonate.go, regenerated from the source: "Impersonate-" -/
-def hImpPrefix : Str := KG.Gen.C02.impersonateHeaderPrefix
+/-- "Impersonate-": the header family the PROPERTY speaks of (hand-written: the specification and the judge must not depend on
+    anything regenerated from the code) -/
+def hImpPrefix : Str := [73, 109, 112, 101, 114, 115, 111, 110, 97, 116, 101, 45]
+/-- the prefix of the names `WrapRequest` deletes before writing its own, regenerated from the source -/
+def hWrapDeletePrefix : Str := KG.Gen.C02.impersonateHeaderPrefix
 /-- "Bearer " -/
 def bearerPrefix : Str := [66, 101, 97, 114, 101, 114, 32]
 /-- "system:serviceaccount:" -/
@@ -412,7 +415,7 @@ def addExtras (h : Headers) : List (Str × List Str) → Headers
   | (k, vv) :: es => addExtras (addValues h (hImpExtraPrefix ++ headerKeyEscape k) vv) es
 
 /-- the loop deleting every header whose canonical name starts with `Impersonate-` -/
-def delImpersonate (h : Headers) : Headers := h.filter (fun e => !hasPrefix (canonicalKey e.1) hImpPrefix)
+def delImpersonate (h : Headers) : Headers := h.filter (fun e => !hasPrefix (canonicalKey e.1) hWrapDeletePrefix)
 
 /-- `headerValueSurvives`: no SP / HTAB at `v[0]` or `v[len(v)-1]`, no control byte (`(b < ' ' && b != '\t') || b == 0x7f`) -/
 def headerValueSurvives (v : Str) : Bool :=
